@@ -173,7 +173,7 @@ def log2_est(x):
     elif isinstance(x, Exp):
         e = x.exp
         if not isinstance(e, int):
-            if log2_est(e) > 20:
+            if log2_est(e) > 64:      # (an upper estimate: the exponent itself is then below 2^64 and int(e) is cheap)
                 raise TooBig
             e = int(e)
         if e < 0:
@@ -210,7 +210,8 @@ def patch_ltall():
         def lt(self, other, orig=orig):
             try:
                 log2_est(self)
-                log2_est(other)
+                if not isinstance(other, int):      # (an int operand has no size estimate: log2_est(0) is undefined)
+                    log2_est(other)
                 return int(self) < int(other)
             except (TooBig, TypeError, NotImplementedError):
                 pass
